@@ -63,7 +63,9 @@ def build_tree(files, rng):
     return root, pel
 
 
-READ_ONLY = [["-l"], ["-a"], ["-n"], ["-l", "-x"], ["-a", "-r"], ["--plid", "00000001"], ["--src", "BD"], ["--bmc-id", "1"], ["-i", "00000001"]]
+READ_ONLY = [["-l"], ["-a"], ["-n"], ["-l", "-x"], ["-a", "-r"], ["--plid", "00000001"], ["--src", "BD"], ["--bmc-id", "1"], ["-i", "00000001"],
+             # --clean belongs to --json and --file: with any other mode it must do nothing
+             ["-l", "-c"], ["-a", "-c"], ["-n", "-c"], ["--bmc-id", "1", "-c"], ["--src", "BD", "-c"]]
 
 
 def run(run, model, proof):
@@ -103,7 +105,7 @@ def run(run, model, proof):
             pl = ["-P"] if not plugins else []
             clean = False
             if k < 3:
-                kind, argv = "readonly", rng.choice(READ_ONLY + [["--src-exclude", excl], ["-f", os.path.join(root, "outside.pel")], ["-f", os.path.join(pel, files[0][0])] if files else ["-l"]])
+                kind, argv = "readonly", rng.choice(READ_ONLY + [["-i", espell, "-c"], ["-i", espell, "-c", "-x"], ["-i", espell], ["--plid", espell, "-c"], ["--src-exclude", excl], ["-f", os.path.join(root, "outside.pel")], ["-f", os.path.join(pel, files[0][0])] if files else ["-l"]])
             elif k < 5:
                 kind, argv = "delete", ["-d", espell]
             elif k == 5:
